@@ -251,8 +251,15 @@ def tracer_scopes(draw, m):
     if draw(st.booleans()):
         cart = [cart[0], cart[2], cart[1]]
     for_kind = draw(st.integers(0, 2))
+    def prop(name, target=None, expr=None):
+        return dict(kind='property', name=name, target=target, card=None, required=False, expr=expr,
+                    default=None, constraints=[], annotations=[], linkprops=[])
+    # a structured declaration, so that checks which permute type bodies permute this one
+    cart_decl = dict(kind='type', name='Cart', abstract=False, bases=[], members=[
+        prop('total', expr=sub) if c.startswith('property total') else
+        prop(c.split()[1], target='int64') for c in cart])
     decls = [raw('Item', 'type {NAME} { property price -> int64; }'),
-             raw('Cart', 'type {NAME} { ' + '; '.join(cart) + '; }'),
+             cart_decl,
              raw('n_items', f'function {{NAME}}() -> int64 using (count({q("Item")}))')]
     if for_kind == 0:
         decls.append(raw('Loop', 'type {NAME} { property lz := (select sum((for Item in {1, 2} union (Item + 1)))); }'))
